@@ -65,8 +65,9 @@ def damage(rnd, body, recs):
     return "trailing-garbage", body + bytes(rnd.randrange(256) for _ in range(rnd.randrange(1, 16)))
 
 
-def script_for(path, outbase, calls):
-    src = 'let OBS = [];\nlet f = pcap_open("%s");\nif is_error(f) { push(OBS, [0, "OPEN-E"]); } else {\n' % path
+def script_for(path, outbase, calls, via_stdin=False):
+    opener = "pcap_stream(stdin)" if via_stdin else 'pcap_open("%s")' % path
+    src = 'let OBS = [];\nlet f = %s;\nif is_error(f) { push(OBS, [0, "OPEN-E"]); } else {\n' % opener
     for j, c in enumerate(calls, 1):
         if c["op"] == "next":
             src += ('let r%d = pcap_read_next(f);\nif is_error(r%d) { push(OBS, [%d, "E"]); } else if r%d == null { push(OBS, [%d, "N"]); } '
@@ -79,7 +80,29 @@ def script_for(path, outbase, calls):
                     'push(OBS, [%d, "R", q.sec, q.usec, q.caplen, q.wirelen]); pcap_write(o%d, q); i%d = i%d + 1; } }\n'
                     % (j, arg, j, j, j, j, j, outbase, j, j, j, j, j, j, j, j, j, j))
     src += "}\n"
+    if via_stdin:
+        # the run goes through the binary: the observations are printed, one JSON array per line
+        src += 'let zz = 0; while zz < len(OBS) { eprintln("OBS {}", OBS[zz]); zz = zz + 1; }\n'
     return src
+
+
+def proj_int(n):
+    n &= (1 << 64) - 1
+    return {"k": "int", "v": [(n >> (8 * i)) & 255 for i in range(8)]}
+
+
+def obs_from_stderr(err):
+    """the printed observation arrays in the projection the in-process harness uses"""
+    out = []
+    for line in err.decode("utf8", "replace").splitlines():
+        if not line.startswith("OBS "):
+            continue
+        try:
+            a = json.loads(line[4:])
+        except ValueError:
+            continue
+        out.append({"k": "arr", "v": [proj_int(x) if isinstance(x, int) else {"k": "str", "v": [ord(c) for c in x]} for x in a]})
+    return out
 
 
 def num(v):
@@ -121,9 +144,22 @@ def run(rep, tier, seed):
                 it["path"] = os.path.join(d, "f%d.pcap" % it["id"])
                 it["outbase"] = os.path.join(d, "o%d" % it["id"])
                 open(it["path"], "wb").write(data)
-                it["src"] = script_for(it["path"], it["outbase"], calls)
+                # every 4th history reads the same bytes as a stream on standard input (pcap_stream), through the binary
+                it["via_stdin"] = (len(items) % 4 == 3) and not big
+                it["src"] = script_for(it["path"], it["outbase"], calls, via_stdin=it["via_stdin"])
+                if it["via_stdin"]:
+                    it["tag"] += " via-stdin"
                 items.append(it)
-        res = core.run_cases([{"id": it["id"], "src": it["src"]} for it in items], deadline_ms=60000)
+        res = core.run_cases([{"id": it["id"], "src": it["src"]} for it in items if not it["via_stdin"]], deadline_ms=60000)
+        sitems = [it for it in items if it["via_stdin"]]
+        if sitems:
+            from .. import e2e
+            core.build_binary()
+            for it, r in zip(sitems, e2e.run_many([(["-c", it["src"]], it["file"]) for it in sitems])):
+                rterr = b"Runtime error" in r["err"]
+                res[it["id"]] = {"how": ("rterror" if rterr else "ok") if r["how"] == "exit" else r["how"],
+                                 "msg": r["err"].decode("utf8", "replace")[-200:] if r["how"] != "exit" or rterr else "",
+                                 "obs": {"k": "arr", "v": obs_from_stderr(r["err"])}}
         recs = []
         for it in items:
             r = res[it["id"]]
